@@ -153,15 +153,21 @@ Fixpoint le_words_sum (d : bytes) (acc : N) : N :=
   | a :: b :: r => le_words_sum r (acc + (a + 256 * b))
   | _ => acc
   end.
-Definition add_slice (aligned : bool) (data : bytes) (acc : N) : N :=
+(* the u32 sum of the 16-bit loads, before folding *)
+Definition slice_sum (aligned : bool) (data : bytes) : N :=
   match data with
-  | [] => acc
+  | [] => 0
   | d0 :: tl0 =>
     let '(init, d1) := if aligned then (0, data) else (d0 * 256, tl0) in          (* (x as u16).to_be() *)
     let '(init2, d2) :=
       if N.odd (blen d1) then (init + last d1 0, removelast d1) else (init, d1) in (* (x as u16).to_le() *)
-    let sum := le_words_sum d2 init2 in
-    let s16 := trunc 16 (fold_checksum sum) in
+    le_words_sum d2 init2
+  end.
+Definition add_slice (aligned : bool) (data : bytes) (acc : N) : N :=
+  match data with
+  | [] => acc
+  | _ =>
+    let s16 := trunc 16 (fold_checksum (slice_sum aligned data)) in
     let s := if aligned then s16 else swap16 s16 in
     acc + swap16 s                                                                (* to_be() *)
   end.
